@@ -380,6 +380,54 @@ func runC16(c *Ctx) {
 		}
 		c.R.RequireMin("R16.3", "scoring loops of nearestMatch", nL, 1)
 	}
+	// R16.4 the shortcut of nearestMatch that answers "this is the known value itself" (a Match with the constant
+	// confidence 1.0, built outside the scoring goroutines) stands behind an equality of the two texts - not behind a
+	// search of one in the other (a license that contains another license's text would be reported as that one)
+	if nm := p.Func(scPkg, "(*Classifier).nearestMatch"); nm != nil {
+		nS := 0
+		for _, lit := range structLits([]*ssa.Function{nm}, "stringclassifier.Match") {
+			conf, ok := lit.fields["Confidence"].(*ssa.Const)
+			if !ok || conf.Value == nil || conf.Value.ExactString() != "1" {
+				continue
+			}
+			nS++
+			eq := false
+			for _, f := range core.FactsAt(lit.alloc.Block()) {
+				if bo, ok := f.Cond.(*ssa.BinOp); ok && bo.Op == token.EQL && f.Truth && isString(bo.X.Type()) && isString(bo.Y.Type()) {
+					eq = true
+				}
+				if bo, ok := f.Cond.(*ssa.BinOp); ok && bo.Op == token.NEQ && !f.Truth && isString(bo.X.Type()) && isString(bo.Y.Type()) {
+					eq = true
+				}
+			}
+			c.R.Check(eq, "R16.4", "nearestMatch: the exact-match shortcut stands behind an equality of the unknown text and the known value", p.Pos(lit.alloc.Pos()),
+				"guarded by `unknown == known`", "the shortcut that reports confidence 1.0 is not guarded by an equality of the two texts: a text that merely contains (or is found by a pattern of) a known value is reported as that value")
+		}
+		c.R.Count("R16.4:exact-match shortcuts in nearestMatch", nS)
+	}
+	// R16.5 the ".header" of a name is taken off as a suffix: no strings.Trim/TrimLeft/TrimRight in the root module is given a
+	// constant that looks like a suffix or an extension (those functions take a *set of characters*: "Beerware" would lose
+	// its "are", "BSD-2-Clause" its "e")
+	{
+		nT, bad := 0, ""
+		for _, f := range p.SrcFuncs(core.RootMod) {
+			if !strings.HasPrefix(core.FuncPkgPath(f), core.RootMod) || strings.Contains(core.FuncPkgPath(f), "/v2") {
+				continue
+			}
+			for _, call := range core.CallsIn(f) {
+				n := core.StaticCalleeName(call.Common())
+				if n != "strings.Trim" && n != "strings.TrimLeft" && n != "strings.TrimRight" {
+					continue
+				}
+				nT++
+				if sv, ok := core.ConstString(call.Common().Args[1]); ok && len(sv) >= 3 && sv[0] == '.' && lettersLower(sv[1:]) {
+					bad = fmt.Sprintf("%s(%q) in %s (%s)", n, sv, core.ShortFn(f), p.Pos(call.Pos()))
+				}
+			}
+		}
+		c.R.Check(bad == "", "R16.5", "no character-set trim is given a suffix", core.RootMod, fmt.Sprintf("%d calls of strings.Trim/TrimLeft/TrimRight, none with an extension-like constant", nT),
+			bad+": the constant is treated as a set of characters, so names that end in any of them lose more than the suffix")
+	}
 	// shared with C14: NearestMatch/MultipleMatch keep no scratch state between calls (R14.5); shared with C15: every
 	// archived text is read completely and paired with its own search set when the corpus is loaded (R15.2, R15.4)
 	checkV1SharedWrites(c, p)
